@@ -249,21 +249,67 @@ REG.contract(
     globals={"media_cache": CACHE, "comp_hash_mapping": MAPPING, "_CONTENT_TYPES": CONTENT_TYPES},
     requires=[_content_types_const,
               # HInv (writer: Component.__init_subclass__): the mapping sends a hash to the class with that hash
-              lambda c: z3.Implies(_hash_known(c), class_hash(z3.Select(MAPPING.val(c.run.globals["comp_hash_mapping"].t), c["comp_cls_hash"].t)) == c["comp_cls_hash"].t),
-              # KInv instance (only _cache_script writes such keys, and only for js/css - see own#cache.set)
-              lambda c: z3.Implies(z3.Select(CACHE.has(G(c)), _view_key(c)), _is_kind(c["script_type"].t))],
+              lambda c: z3.Implies(_hash_known(c), class_hash(z3.Select(MAPPING.val(c.run.globals["comp_hash_mapping"].t), c["comp_cls_hash"].t)) == c["comp_cls_hash"].t)],
+    # NOTHING is assumed about script_type / input_hash: the URL converters accept any text without '/', and a "kind"
+    # such as `js:42b7b4` forms the key of a cached variables script (the key f-string is not injective outside js/css).
+    # An earlier version of this contract assumed "a key that is present was written for this very kind" - false, and it
+    # hid a server error (known_findings: fixed C19).
     modifies=[], raises={},           # never a server error
     ensures={
         "405_iff_not_get": lambda c: (RESP.proj(c["result"].t, 0) == 405) == (ops.uf("request_method", REQ.sort(), S)(c["req"].t) != z3.StringVal("GET")),
-        "404_iff_unknown": lambda c: z3.Implies(ops.uf("request_method", REQ.sort(), S)(c["req"].t) == z3.StringVal("GET"),
-                                                (RESP.proj(c["result"].t, 0) == 404) == z3.Or(z3.Not(_hash_known(c)), z3.Not(z3.Select(CACHE.has(G(c)), _view_key(c))))),
+        "404_iff_unknown_hash_kind_or_script": lambda c: z3.Implies(
+            ops.uf("request_method", REQ.sort(), S)(c["req"].t) == z3.StringVal("GET"),
+            (RESP.proj(c["result"].t, 0) == 404) == z3.Or(z3.Not(_hash_known(c)), z3.Not(_is_kind(c["script_type"].t)), z3.Not(z3.Select(CACHE.has(G(c)), _view_key(c))))),
         "else_200_with_that_components_code_and_type": lambda c: z3.Implies(
-            z3.And(ops.uf("request_method", REQ.sort(), S)(c["req"].t) == z3.StringVal("GET"), _hash_known(c), z3.Select(CACHE.has(G(c)), _view_key(c))),
+            z3.And(ops.uf("request_method", REQ.sort(), S)(c["req"].t) == z3.StringVal("GET"), _hash_known(c), _is_kind(c["script_type"].t), z3.Select(CACHE.has(G(c)), _view_key(c))),
             z3.And(RESP.proj(c["result"].t, 0) == 200,
                    RESP.proj(c["result"].t, 1) == OS.some(z3.Select(CACHE.val(G(c)), key_of(c["comp_cls_hash"].t, c["script_type"].t, c["input_hash"].t))),
                    RESP.proj(c["result"].t, 2) == OS.some(z3.If(c["script_type"].t == z3.StringVal("js"), z3.StringVal("text/javascript"), z3.StringVal("text/css"))))),
     },
 )
+
+
+# ================================================================================================ variables scripts
+def md5hex(s_):
+    return ops.uf("md5_hexdigest", S, S)(s_)
+
+
+JSONABLE = Obj("JsonData")
+REG.stub("json.dumps", lambda run, args, kwargs, node: Val(TStr, ops.uf("json_dumps", JSONABLE.sort(), S)(args[0].t)))
+
+
+def _md5(run, args, kwargs, node):
+    v = run.coerce(args[0], TStr)
+    return Conc(("md5", v.t))
+
+
+def _hexdigest(run, obj, args, kwargs, node):
+    t = md5hex(obj.obj[1])
+    run.pc.append(z3.Length(t) == 32)          # A-PY (hashlib): 32 characters ...
+    run.pc.append(z3.InRe(t, z3.Star(z3.Union(z3.Range("0", "9"), z3.Range("a", "f")))))    # ... of lower-case hex
+    return Val(TStr, t)
+
+
+REG.stub("hashlib.md5", _md5)
+REG.stub(("method", "conc:md5", "hexdigest"), _hexdigest)
+
+
+def _vars_hash(c, name):
+    return z3.SubString(md5hex(ops.uf("str_encode", S, S)(ops.uf("json_dumps", JSONABLE.sort(), S)(c.old(name).t))), 0, 6)
+
+
+for _fn, _t, _attr, _arg in (("cache_component_js_vars", "js", class_js, "js_vars"), ("cache_component_css_vars", "css", class_css, "css_vars")):
+    def _mkv(t, attr, arg):
+        key = lambda c: key_of(class_hash(c.old("comp_cls").t), z3.StringVal(t), OS.some(_vars_hash(c, arg)))
+        return {
+            "none_iff_no_script_of_this_kind": lambda c: OS.is_none(c["result"].t) == z3.Not(nonblank(attr(c.old("comp_cls").t))),
+            "hash_is_a_function_of_the_data": lambda c: z3.Implies(z3.Not(OS.is_none(c["result"].t)), z3.And(OS.get(c["result"].t) == _vars_hash(c, arg), z3.Length(OS.get(c["result"].t)) == 6)),
+            # from the property: the URL emitted for (class, kind, returned hash) is served - the script is in the cache under THIS kind
+            "published_under_the_key_of_this_kind": lambda c: z3.Implies(z3.Not(OS.is_none(c["result"].t)), z3.Select(CACHE.has(G(c)), key(c))),
+            "nothing_else_changes": lambda c: _only_key_changed(c, key(c)),
+        }
+    REG.contract(f"{DEP}:{_fn}", prop=P, types={"comp_cls": CLS, _arg: JSONABLE}, result=OS, globals=GLOBALS, modifies=["media_cache"], raises={},
+                 ensures=_mkv(_t, _attr, _arg))
 
 
 # ================================================================================================ ownership scan
@@ -283,6 +329,41 @@ def own_cache_set():
 
 
 REG.syntactic_check("own#media_cache_written_only_by__cache_script", P, own_cache_set)
+
+# ------------------------------------------------------------------------------------------- replay on the real code
+def _urls_battery(histories):
+    from harness.bounded_urls import KINDS, worker
+    import itertools
+    from pyvc.repo import REPO
+    steps = [(name, mode) for name in KINDS for mode in ("document", "fragment")] + ["clear"]
+    seqs = [s for k in (1, 2) for s in itertools.product(steps, repeat=k) if s[-1] != "clear"] if histories else []
+    r = worker((REPO, seqs, True))
+    if r["fails"]:
+        f = r["fails"][0]
+        return {"confirmed": True, "function": "cached_script_view (through django's test client and the library's urlconf)", "inputs": f["input"],
+                "expected": f["expected"], "observed": f["observed"], "clause": f["clause"]}
+    return {"confirmed": False}
+
+
+@REG.replay(f"{DEP}:cached_script_view")
+def _replay_view(model, ob):
+    """every request path over known / unknown class hashes x kinds (incl. a kind with a cached input hash glued on) x input
+    hashes x methods, after one render of each generated component"""
+    return _urls_battery(False)
+
+
+for _fn in ("cache_component_js_vars", "cache_component_css_vars", "cache_component_js", "cache_component_css", "_cache_script", "_is_script_in_cache",
+            "_gen_cache_key", "get_script_content", "get_script_tag", "_prepare_tags_and_urls"):
+    REG.replay(f"{DEP}:{_fn}")(lambda model, ob: _urls_battery(True))
+
+
+def _bounded_urls(tier, repo):
+    from harness.bounded_urls import run
+    return run(repo, maxlen=3 if tier == "thorough" else 2)
+
+
+REG.bounded_check("bounded#every_emitted_url_is_served_and_unknown_paths_are_404", P, _bounded_urls,
+                  note="the order cache-before-emit inside Component._render_impl, the URL resolver round trip and histories of renders and cache clears are not under contract: every history of <= 2 (thorough: 3) steps over 6 generated component classes (js / css / both / neither / both with equal or different js- and css-data) x document / fragment render + media-cache clear is run, every URL the last render emits is fetched through django's test client, and every request path over known / unknown hashes x 10 kinds x 3 input hashes x 4 methods is compared with the property")
 
 ASSUMES = ["A-PY", "A-INST", "A-DJ"]
 NOT_COVERED = [
